@@ -568,6 +568,7 @@ func init() {
 		Stub:        []string{"net.Listener (SimListener)", "net.Conn (SimConn, with a raw tap below TLS)", "Backend/AuthSession (SimBackend)", "hostile SMTP server (stub) for the client half", "dialing (VerifDial hook, build tag verif)", "clock (synctest)"},
 		Assumptions: []string{"after a failed handshake nothing is judged except C08's rules", "package-level SendMail verifies certificates with the default configuration, so against the simulated self-signed peer only its failure modes are reachable"},
 		Required:    []string{"logout_of_the_plaintext_session_returns_an_error", "client_tls_session_established", "in_tls_ehlo_reply_without_capabilities", "injected_plaintext_later_segment_breaks_handshake", "injected_plaintext_same_segment_then_tls_ok", "server_tls_session_established", "stub_honest", "stub_454", "stub_starttls-not-advertised", "stub_220-then-garbage", "stub_220-then-cut", "stub_220+injected-reply-same-segment", "stub_220+injected-reply-later-segment", "handshake_fails_connection_goes_on_in_plaintext", "in_tls_ehlo_refused_client_falls_back_to_helo", "injected_long_run_without_line_end_then_tls_ok"},
+		Instr:       true,
 		QuickRuns:   12000, ThoroughRuns: 600000,
 	})
 }
